@@ -599,3 +599,60 @@ func firstLines(s string, n int) string {
 	}
 	return strings.Join(lines, " | ")
 }
+
+// ---------- counters that wrap around
+
+// TestProp_CounterWrap: a name used 2^8 or 2^16 times (Var.Uses is a uint16; other counters may be narrower than an int)
+// in front of every construct that looks at such a counter. Enumerated, not drawn: the interesting counts are few.
+func TestProp_CounterWrap(t *testing.T) {
+	ev.Describe("wrap", "flat programs: an optional declaration (none, var, let, parameter, assignment) + a unit mentioning the name a repeated n times, n in {254..257, 65533..65537} + a tail that treats a specially (a=>1, async a=>1, (a)=>1, var a, function a(){}, class a{}, label a:, ({a})=>a, a, typeof a, for(a of b);, catch(a){}, a++) x Options; oracle: Parse returns normally, exactly one of (tree, error) is nil, a returned tree survives String, JS, Walk and JSON; non-trivial = n >= 65535")
+	shard, nshards := 0, 1
+	fmt.Sscan(os.Getenv("VERIF_SHARD"), &shard)
+	fmt.Sscan(os.Getenv("VERIF_NSHARDS"), &nshards)
+	if nshards < 1 {
+		nshards = 1
+	}
+	pres := []string{"", "var a;", "let a;", "a=1;", "function f(a){"}
+	units := []string{"a;", "a,", "a+", "(a);", "a=a;", "[a];"}
+	tails := []string{"a=>1", "async a=>1", "(a)=>1", "var a", "function a(){}", "class a{}", "a:;", "x=({a})=>a", "a", "typeof a", "for(a of b);", "try{}catch(a){}", "a++", "x={a}", "({a}=b)"}
+	i := 0
+	for _, n := range []int{254, 255, 256, 257, 65533, 65534, 65535, 65536, 65537} {
+		for _, pre := range pres {
+			for _, unit := range units {
+				for _, tail := range tails {
+					i++
+					if i%nshards != shard {
+						continue
+					}
+					if n > 1000 && (i/nshards)%3 != 0 && !ev.Thorough() {
+						continue // the long ones: a third of them in the quick tier
+					}
+					src := pre + strings.Repeat(unit, n) + tail
+					if unit == "a," || unit == "a+" {
+						src = pre + "x=" + strings.Repeat(unit, n) + "0;" + tail
+					}
+					if strings.HasPrefix(pre, "function") {
+						src += "}"
+					}
+					o := js.Options{WhileToFor: i%2 == 0, Inline: i%4 < 2}
+					func() {
+						defer func() {
+							if r := recover(); r != nil {
+								t.Fatalf("js.Parse(%q + %q*%d + %q, %+v) panics: %v", pre, unit, n, tail, o, r)
+							}
+						}()
+						ast, err := js.Parse(parse.NewInputString(src), o)
+						if (ast == nil) == (err == nil) {
+							t.Fatalf("js.Parse(%q + %q*%d + %q, %+v) returns tree=%v err=%v", pre, unit, n, tail, o, ast != nil, err)
+						}
+						if ast != nil {
+							label := fmt.Sprintf("%q + %q*%d + %q", pre, unit, n, tail)
+							useTree(t, []byte(label), o, ast)
+						}
+					}()
+					ev.Case("wrap", fmt.Sprintf("%q+%q*%d+%q", pre, unit, n, tail), n >= 65535, fmt.Sprintf("n=%d", n))
+				}
+			}
+		}
+	}
+}
